@@ -7,5 +7,6 @@ CONSTANTS
   PublishAtomic = TRUE
   UnrefIsValid = FALSE
   InitMayFail = FALSE
+  IsValidSync = FALSE
 INVARIANTS TypeOK
 PROPERTY Returns
